@@ -4,6 +4,7 @@ mod p_bytes;
 mod p_derived;
 mod p_evo;
 mod p_misc;
+mod p_tables;
 mod p_varint;
 mod p_values;
 
@@ -33,6 +34,8 @@ fn main() {
             Some(i) => p_bytes::child(&prop, &tier, only, &args[i + 1]),
             None => p_bytes::run(&prop, &tier, only),
         },
+        "C09" => p_tables::run_c09(&tier, only),
+        "C10" => p_tables::run_c10(&tier, only),
         "C11" => p_varint::run(&tier, only),
         "C12" => p_misc::run_c12(&tier, only),
         "C16" => p_misc::run_c16(&tier, only),
